@@ -70,7 +70,8 @@ def floors(tier):
             'history_calls_compared': 1500, 'db_snapshots_compared': 1500, 'hist:mode:strict': 300,
             'hist:mode:tolerant': 300, 'hist:outcome:parse_error': 30, 'verbatim_arg_documents': 10,
             'context_extending_documents': 9, 'parses_with_shared_parser_object': 200,
-            'parser_class_context_documents': 50, 'order_sensitive_triples': 4, 'parses_on_a_used_walker_object': 200, 'parses_from_configured_start_state': 100}
+            'parser_class_context_documents': 50, 'order_sensitive_triples': 4, 'parses_on_a_used_walker_object': 200, 'parses_from_configured_start_state': 100,
+            'parses_with_a_database_extended_between_parses': 200}
 
 
 def setup(rec):
@@ -214,9 +215,75 @@ def check_case(case, rec, refs=None):
             return
 
 
+def growing_database_histories(rng, rec, count):
+    """A database the caller keeps extending between parses (it stays unfrozen when it reaches the walker through a
+    ParsingState): after every extension the next parse gives what a database that was built with all those categories from
+    the start gives -- the same contents, the same input, the same flags."""
+    from pylatexenc.latexwalker import LatexWalker
+    from pylatexenc.latexnodes import ParsingState, LatexWalkerParseError as _PE
+    from pylatexenc.latexnodes.parsers import LatexGeneralNodesParser
+    from pylatexenc.macrospec import LatexContextDb, MacroSpec, EnvironmentSpec, SpecialsSpec
+    from ..mon import canon
+    CATS = [dict(macros=[('ma', '{')], specials=['~']), dict(macros=[('mb', '[{')], specials=['|', '||']),
+            dict(environments=[('ea', '{')], specials=['--', '-->']), dict(macros=[('mc', '*{')], specials=['<<', '&']),
+            dict(specials=['!', '?`', '@@'], macros=[('ma', '{{')]), dict(environments=[('eb', '')], macros=[('md', '')])]
+    DOCS = ['a~b|c||d', 'x -- y --> z \\ma{p}{q}', '\\mb[o]{a} << b & c', '\\begin{ea}{t} u!v @@ ?` \\end{ea}', 'left|right and a',
+            '\\mc*{s}\\md t\\begin{eb}w\\end{eb}', 'p||q --> r & s ! t']
+
+    def build(cat_ids):
+        db = LatexContextDb()
+        for ci in cat_ids:
+            add(db, ci)
+        db.set_unknown_macro_spec(MacroSpec(''))
+        db.set_unknown_environment_spec(EnvironmentSpec(''))
+        return db
+
+    def add(db, ci):
+        c = CATS[ci]
+        db.add_context_category('cat%d' % ci, macros=[MacroSpec(n, a) for n, a in c.get('macros', [])],
+                                environments=[EnvironmentSpec(n, a) for n, a in c.get('environments', [])],
+                                specials=[SpecialsSpec(x) for x in c.get('specials', [])], prepend=bool(ci % 2))
+
+    def run(db, doc, tol):
+        try:
+            lw = LatexWalker(doc, default_parsing_state=ParsingState(s=doc, latex_context=db), tolerant_parsing=tol)
+            nl, _ = lw.parse_content(LatexGeneralNodesParser())
+            return ('ok', [canon.canon(n) for n in nl])
+        except _PE as e:
+            return ('err', getattr(e, 'pos', None), str(getattr(e, 'msg', ''))[:80])
+        except Exception as e:
+            return ('exc', type(e).__name__, str(e)[:80])
+    for _ in range(count):
+        order = rng.sample(range(len(CATS)), rng.randint(2, 5))
+        db = build(order[:1])
+        log = [('build', order[:1])]
+        for k in range(1, len(order) + 1):
+            for _ in range(rng.randint(1, 3)):
+                doc, tol = rng.choice(DOCS), rng.random() < 0.5
+                got = run(db, doc, tol)
+                want = run(build(order[:k]), doc, tol)
+                rec.case()
+                rec.monitor('parses_with_a_database_extended_between_parses')
+                log.append(('parse', doc, tol))
+                if db.frozen:
+                    rec.monitor('growing_database_got_frozen')
+                if got != want:
+                    rec.violation({'growing_database': log}, 'parsing %r (tolerant=%r) with a database that was extended between '
+                                  'parses gives %s, a database built with the same categories from the start gives %s | history %r'
+                                  % (doc, tol, json.dumps(got)[:300], json.dumps(want)[:300], log), mech='growing-database')
+                    return
+            if k < len(order):
+                if db.frozen:
+                    break
+                add(db, order[k])
+                log.append(('add', order[k]))
+
+
 def run_shard(desc, rec):
     rng = rng_for(desc)
     refs_by_ctx = {}
+    if desc['vocab'] == 'defs':
+        growing_database_histories(rng, rec, 6 * desc['histories'])
     for h in range(desc['histories']):
         if desc['vocab'] == 'nlargs':
             # the context built from argument parser classes (comma-separated list, characters group, tack-on field
